@@ -26,6 +26,8 @@ type RandScript struct {
 	// Chunk > 0: serve at most Chunk octets per Read call (legal short reads).
 	Chunk int `json:"chunk,omitempty"`
 	// FailAt >= 1: the FailAt-th Read call of the step fails. 0 = never.
+	// FlipAt >= 1: the FlipAt-th octet served in this step (counting from 1) is complemented.
+	FlipAt   int    `json:"flip_at,omitempty"`
 	FailAt   int    `json:"fail_at,omitempty"`
 	FailMode string `json:"fail_mode,omitempty"` // "err" (0,err) | "eof" (0,EOF) | "partial" (n>0,err)
 }
@@ -105,6 +107,9 @@ func (st *randState) fill(p []byte) {
 		} else {
 			st.rng.Fill(p[i:])
 		}
+	}
+	if f := st.script.FlipAt; f > st.total && f <= st.total+len(p) {
+		p[f-st.total-1] ^= 0xff
 	}
 	st.total += len(p)
 	if st.keep {
